@@ -125,7 +125,12 @@ def run(chk):
               'elementpath/xpath2/_xpath2_operators.py', 'elementpath/sequence_types.py'):
         chk.record_source(f)
     chk.forbidden_scan(['C20'])
-    proved = chk.prove(['theories/C20/Model.v', 'theories/C20/Proofs.v', 'theories/C20/Run.v'], 'theories/C20/Properties.v')
+    import sys as _sys
+    _sys.path.insert(0, core.VERIF + '/harness')
+    import gen_c20
+    gen_c20.generate()          # T-data / source-shape facts regenerated from /repo on every run
+    chk.trusted.append('harness/shape.py: AST lookup of the statements mirrored by the hand model (Gen/C20Shape.v)')
+    proved = chk.prove(['theories/Gen/C20Shape.v', 'theories/C20/Model.v', 'theories/C20/Proofs.v', 'theories/C20/Run.v'], 'theories/C20/Properties.v')
     model_ok = True
     if not proved:
         try:
